@@ -77,3 +77,32 @@ Theorem c19_local_fallback_utc : forall fs e,
   local_time_zone fs e = OK (false, str_UTC', KUtc).
 Proof. exact local_fallback_utc. Qed.
 Print Assumptions c19_local_fallback_utc.
+
+From CCTZ Require Import FixedImpl ZoneLoad SourceLoad SourceNames SourceNamesProofs NameRes.
+(* NAME RESOLUTION AS CLANG READS IT NOW (SourceNames.v, regenerated every run from time_zone_info.cc and
+   time_zone_lookup.cc; getenv, fopen, the zone_info_source_factory and load_time_zone are oracle parameters):
+   FileZoneInfoSource::Open opens exactly zone_path of the model ("file:" prefix, absolute test, $TZDIR with its default,
+   also when set but empty), local_time_zone() loads exactly local_zone_name ($TZ, one ':' stripped, "localtime" ->
+   $LOCALTIME or /etc/localtime), Load(name) short-circuits fixed-offset names and otherwise decides as load_name does. *)
+Theorem src_file_open_tie : forall (getenv fopen : list Z -> option (list Z)) name e,
+  e_tzdir e = getenv [84; 90; 68; 73; 82] -> (forall v, e_tzdir e = Some v -> ~ In 0 v) ->
+  Z.of_nat (length name) < 2 ^ 64 ->
+  sn_FileOpen getenv fopen name = OK (option_map (fun b => (b, [])) (fopen (zone_path e name))).
+Proof. exact SourceNamesProofs.sn_FileOpen_tie. Qed.
+Print Assumptions src_file_open_tie.
+Theorem src_local_time_zone_tie : forall (getenv : list Z -> option (list Z)) (TZ : Type) (d : TZ) (load : list Z -> TZ -> bool * TZ) e,
+  e_tz e = getenv [84; 90] -> e_localtime e = getenv [76; 79; 67; 65; 76; 84; 73; 77; 69] ->
+  sn_local_time_zone getenv TZ d load = OK (snd (load (local_zone_name e) d)).
+Proof. exact SourceNamesProofs.sn_local_time_zone_tie. Qed.
+Print Assumptions src_local_time_zone_tie.
+Theorem src_load_name_tie : forall (factory : list Z -> option (list Z * list Z)) name ver d0 f0 e0 ly0 fuel,
+  (forall bs v, factory name = Some (bs, v) ->
+     SourceDecodeProofs.bytes_ok bs /\ Z.of_nat (length bs) < 2 ^ 62 /\ (length bs + 1300 <= fuel)%nat) ->
+  match load_name (fun n => option_map fst (factory n)) name with
+  | OK (Some z) => exists ver',
+      sn_LoadName fuel (mkZone [] [] d0 [] f0 e0 ly0) ver factory name = OK (true, SourceLoadProofs.load_result ly0 z, ver')
+  | OK None => exists z' ver', sn_LoadName fuel (mkZone [] [] d0 [] f0 e0 ly0) ver factory name = OK (false, z', ver')
+  | Err _ => True
+  end.
+Proof. exact SourceNamesProofs.sn_LoadName_tie. Qed.
+Print Assumptions src_load_name_tie.
